@@ -27,6 +27,12 @@ func (d DirectIOFactory) CreateNewWriter(filePath string, bufSize int) (*os.File
 		return nil, nil, err
 	}
 
+	// the aligned writer flushes its whole buffer, and a file opened for direct I/O takes whole blocks only: a buffer that
+	// is not a multiple of the block size could not be written at all (EINVAL at the first flush)
+	if rest := bufSize % directio.BlockSize; rest != 0 {
+		bufSize += directio.BlockSize - rest
+	}
+
 	block := directio.AlignedBlock(bufSize)
 	return writeFile, NewAlignedWriterBuf(writeFile, block), nil
 }
